@@ -52,7 +52,13 @@ def build_input(summary, seed, tier):
     for a, b in (("Read10", "Inquiry"), ("Read16", "Write10"), ("Inquiry", "Read16"), ("TestUnitReady", "ReadCapacity16")):
         if a in byname and b in byname:
             pairs.append(dict(a=byname[a], b=byname[b], stride=1, max_schedules=400 if tier == "quick" else 20000))
-    return dict(histories=hists, pairs=pairs)
+    cold = []
+    for a in ("Read10", "Write16", "Inquiry", "PersistentReserveInReadFullStatus", "ReadElementStatus"):
+        if a in byname:
+            b = dict(byname[a])
+            b["pos"] = [[k, (v + 3 if k == "i" and isinstance(v, int) and byname[a]["pos"][n][1] not in (512,) else v)] for n, (k, v) in enumerate(b["pos"])]
+            cold.append(dict(a=byname[a], b=b, stride=1 if tier == "quick" else 1))
+    return dict(histories=hists, pairs=pairs, cold_pairs=cold, seed=seed, n_decode=3 if tier == "quick" else 12)
 
 
 def run_impl(inp):
@@ -73,6 +79,17 @@ def findings(inp, res):
                              pair=p, schedule=dict(a_lines=r["bad"]["a_lines"], b_lines=r["bad"]["b_lines"]),
                              observed="thread A runs %d lines, thread B %d lines, then both finish: %s instead of %s" % (
                                  r["bad"]["a_lines"], r["bad"]["b_lines"], str(r["bad"]["interleaved"])[:200], str(r["bad"]["alone"])[:200])))
+            break
+    dec = res.get("decode") or {}
+    if dec.get("bad"):
+        hits.append(dict(kind="c09-decode", id="decode: decoding a response changes (or aliases) the result an earlier decode returned",
+                         observed=dec["bad"]["what"]))
+    for p, r in zip(inp.get("cold_pairs", []), res.get("cold", [])):
+        if r["bad"]:
+            hits.append(dict(kind="c09-cold", id="first use: two threads using one command class for the first time in the process interfere",
+                             pair=p, schedule=dict(a_lines=r["bad"]["a_lines"]),
+                             observed="first use of %s in the process: thread A runs %d lines, thread B builds its command completely, A resumes: %s instead of %s" % (
+                                 p["a"]["cls"], r["bad"]["a_lines"], str(r["bad"]["interleaved"])[:200], str(r["bad"]["alone"])[:200])))
             break
     for m in res["mutation"]:
         if m["changed"]:
@@ -95,6 +112,14 @@ def replay(obj):
         res = run_impl(dict(histories=[], pairs=[obj["pair"]]))
         bad = res["threads"][0]["bad"]
         return bad is None, ("a schedule still interferes: %s" % str(bad)[:300] if bad else "no schedule interferes")
+    if obj.get("kind") == "c09-cold":
+        res = run_impl(dict(histories=[], pairs=[], cold_pairs=[obj["pair"]]))
+        bad = res["cold"][0]["bad"]
+        return bad is None, ("a first-use schedule still interferes: %s" % str(bad)[:300] if bad else "no first-use schedule interferes")
+    if obj.get("kind") == "c09-decode":
+        res = run_impl(dict(histories=[], pairs=[], seed=int(os.environ.get("VERIF_SEED", "20260929")), n_decode=3))
+        bad = (res.get("decode") or {}).get("bad")
+        return bad is None, ("still: %s" % bad["what"] if bad else "decoded results are isolated")
     if obj.get("kind") == "c09-mutation":
         res = run_impl(dict(histories=[], pairs=[]))
         hits = [h for h in findings(dict(histories=[], pairs=[]), res) if h["id"] == obj["id"]]
@@ -111,7 +136,9 @@ def run(rep, tier, seed, summary):
         vlib.print_assumptions(rep, PID)
     inp = build_input(summary, seed, tier)
     res = run_impl(inp)
-    nsched = sum(r["schedules"] for r in res["threads"])
+    nsched = sum(r["schedules"] for r in res["threads"]) + sum(r["schedules"] for r in res.get("cold", []))
+    rep.extra["decoded_results_checked_for_isolation"] = (res.get("decode") or {}).get("n")
+    rep.extra["first_use_schedules"] = [dict(lines=r["lines"], schedules=r["schedules"]) for r in res.get("cold", [])]
     rep.suite("isolation on the implementation: %d sequential histories (all ordered pairs of classes + triples), %d two-thread schedules, "
               "input-mutation and determinism probes" % (len(inp["histories"]), nsched),
               len(inp["histories"]) + nsched + len(res["mutation"]) + len(res["determinism"]),
